@@ -33,6 +33,7 @@ type RunSpec struct {
 	Concrete map[string]interface{} // concrete-input mode (co-simulation trace sets)
 	MaxViol  int
 	Props    map[string]bool
+	AssertPrefixes []string // only assertions with these label prefixes are evaluated (empty: all)
 	ForkStats bool
 }
 
@@ -133,7 +134,7 @@ func (p *Program) Run(spec RunSpec) (*RunResult, error) {
 					cfg := &Config{Unwind: spec.Unwind, TimeoutMs: spec.SolverMs, XCheck: spec.XCheck, XCheck2: spec.XCheck2,
 						Subst: spec.Subst, KnownIDs: spec.Known, MaxViol: spec.MaxViol, Cosim: spec.Cosim, Fuse: spec.Fuse,
 						Harness: spec.Entry + fmt.Sprint(spec.Args), MergeAt: mergeAt, Deadline: deadline, concrete: spec.Concrete,
-						split: spec.Split, Props: spec.Props}
+						split: spec.Split, Props: spec.Props, AssertPrefixes: spec.AssertPrefixes}
 					w = NewWorker(p, cfg)
 					if spec.ForkStats {
 						w.st.ForkSites = map[string]int{}
